@@ -349,6 +349,9 @@ class Effects:
                     if (not at or not all(t in ("X:int", "X:float", "X:bool") for t in at)) \
                             and not numeric_string(n.args[0], f, self.ix, e.endswith("float")):
                         add("ValueError", "%s() of a non-numeric string" % e.split(".")[1])
+            elif e == "builtins.next":
+                if len(n.args) == 1 and not n.keywords:
+                    add("StopIteration", "next() of an iterator that may be exhausted, without a default")
             elif e == "builtins.eval":
                 add("Exception", "eval of arbitrary text")
             elif e == "importlib.import_module":
